@@ -45,6 +45,10 @@ type BlockSpec struct {
 	// Restart: the node is stopped and started again on its data directory before this block (single-replica histories
 	// only; honoured by hist.World.RunBlock)
 	Restart bool `json:"restart,omitempty"`
+	// HeaderTxs, when set, is the transaction list the block's header, part set and hash are computed from (and that the
+	// block store keeps) while only Txs are delivered: "the same block with some of its transactions skipped". Used by
+	// twin oracles whose twin must see the same block hashes (BLOCKHASH, log records) as the subject.
+	HeaderTxs [][]byte `json:"-"`
 }
 
 // Chain is the part of Tendermint the harness re-implements: it produces the
@@ -187,8 +191,12 @@ func (c *Chain) MakeBlock(spec BlockSpec) *Block {
 		})
 	}
 
-	txs := make([]tmtypes.Tx, len(spec.Txs))
-	for i, tx := range spec.Txs {
+	src := spec.Txs
+	if spec.HeaderTxs != nil {
+		src = spec.HeaderTxs
+	}
+	txs := make([]tmtypes.Tx, len(src))
+	for i, tx := range src {
 		txs[i] = tmtypes.Tx(tx)
 	}
 	blk := tmtypes.MakeBlock(h, txs, lastCommit, nil)
